@@ -44,15 +44,96 @@ import (
 //go:embed inventory.txt
 var inventoryText string
 
-func loadInventory() map[string]bool {
-	m := map[string]bool{}
+// loadInventory: key -> signature (parameter and result types, names dropped).
+func loadInventory() map[string]string {
+	m := map[string]string{}
 	for _, l := range strings.Split(inventoryText, "\n") {
 		l = strings.TrimSpace(l)
-		if l != "" && !strings.HasPrefix(l, "#") {
-			m[l] = true
+		if l != "" && !strings.HasPrefix(l, "#") && !strings.HasPrefix(l, "field:") && !strings.HasPrefix(l, "const:") {
+			k, sig, _ := strings.Cut(l, "\t")
+			m[k] = sig
 		}
 	}
 	return m
+}
+
+func sigString(sig *types.Signature) string {
+	q := func(p *types.Package) string { return p.Path() }
+	var ps, rs []string
+	for i := 0; i < sig.Params().Len(); i++ {
+		t := types.TypeString(sig.Params().At(i).Type(), q)
+		if sig.Variadic() && i == sig.Params().Len()-1 {
+			t = "..." + t
+		}
+		ps = append(ps, t)
+	}
+	for i := 0; i < sig.Results().Len(); i++ {
+		rs = append(rs, types.TypeString(sig.Results().At(i).Type(), q))
+	}
+	return "(" + strings.Join(ps, ",") + ")(" + strings.Join(rs, ",") + ")"
+}
+
+// resolveRenames: a function of the tree that is not in the inventory takes the place of an inventory function
+// that is gone when both are in the same package, have the same receiver type and the same signature, and the
+// match is unique in both directions. Returns new key -> inventory key.
+func resolveRenames(roots []*packages.Package, inv map[string]string) map[string]string {
+	out := map[string]string{}
+	for _, p := range roots {
+		if !strings.HasPrefix(p.PkgPath, libPath) || p.TypesInfo == nil {
+			continue
+		}
+		present := map[string]string{} // key -> sig
+		for _, f := range p.Syntax {
+			for _, d := range f.Decls {
+				fd, ok := d.(*ast.FuncDecl)
+				if !ok {
+					continue
+				}
+				if fo, ok := p.TypesInfo.Defs[fd.Name].(*types.Func); ok {
+					present[declKey(p.PkgPath, fd)] = sigString(fo.Type().(*types.Signature))
+				}
+			}
+		}
+		group := func(key, sig string) string {
+			// package + receiver type + signature
+			i := strings.LastIndex(key, ".")
+			return key[:i] + "|" + sig
+		}
+		missing := map[string][]string{}
+		for k, sig := range inv {
+			if _, ok := present[k]; ok || sig == "" {
+				continue
+			}
+			// same package only
+			if pkgOfKey(k) != p.PkgPath {
+				continue
+			}
+			missing[group(k, sig)] = append(missing[group(k, sig)], k)
+		}
+		added := map[string][]string{}
+		for k, sig := range present {
+			if _, ok := inv[k]; !ok {
+				added[group(k, sig)] = append(added[group(k, sig)], k)
+			}
+		}
+		for g, ms := range missing {
+			if as := added[g]; len(ms) == 1 && len(as) == 1 {
+				out[as[0]] = ms[0]
+			}
+		}
+	}
+	return out
+}
+
+// pkgOfKey: the package path of an inventory key (pkg.F or pkg.T.M; package paths contain no dot after the last slash... they may: split by known prefixes).
+func pkgOfKey(k string) string {
+	best := ""
+	for _, p := range []string{libPath + "/cmd/whispertool", libPath + "/cmd", libPath + "/internal/compattest", libPath} {
+		if strings.HasPrefix(k, p+".") && len(p) > len(best) {
+			best = p
+		}
+	}
+	return best
 }
 
 // declKey: position-free name of a declared function: pkgpath.F or pkgpath.T.M.
@@ -94,7 +175,11 @@ func moduleFuncDecls(roots []*packages.Package) []string {
 		for _, f := range p.Syntax {
 			for _, d := range f.Decls {
 				if fd, ok := d.(*ast.FuncDecl); ok {
-					keys = append(keys, declKey(p.PkgPath, fd))
+					sig := ""
+					if fo, ok := p.TypesInfo.Defs[fd.Name].(*types.Func); ok {
+						sig = sigString(fo.Type().(*types.Signature))
+					}
+					keys = append(keys, declKey(p.PkgPath, fd)+"\t"+sig)
 				}
 			}
 		}
@@ -261,7 +346,7 @@ type pkgInliner struct {
 	finalBody map[*ast.FuncDecl]*ast.BlockStmt // rewritten bodies
 
 	softRefused map[string]string
-	tailReturn bool // the call being expanded is the operand of a return statement
+	tailReturn  bool // the call being expanded is the operand of a return statement
 
 	curDecl    *ast.FuncDecl
 	curFile    *ast.File
@@ -271,7 +356,7 @@ type pkgInliner struct {
 }
 
 // normalise returns an overlay (file name -> new content) or nil.
-func normalise(roots []*packages.Package, inv map[string]bool) (map[string][]byte, *normReport) {
+func normalise(roots []*packages.Package, inv map[string]string) (map[string][]byte, *normReport) {
 	rep := &normReport{Inlined: map[string]int{}, Refused: map[string]string{}, Into: map[string]bool{}}
 	overlay := map[string][]byte{}
 	counter := 0
@@ -324,7 +409,7 @@ func normalise(roots []*packages.Package, inv map[string]bool) (map[string][]byt
 	return overlay, rep
 }
 
-func (in *pkgInliner) run(inv map[string]bool) map[*ast.File][]fileEdit {
+func (in *pkgInliner) run(inv map[string]string) map[*ast.File][]fileEdit {
 	var order []*ast.FuncDecl
 	for _, f := range in.p.Syntax {
 		for _, d := range f.Decls {
@@ -339,7 +424,7 @@ func (in *pkgInliner) run(inv map[string]bool) map[*ast.File][]fileEdit {
 			in.decls[obj] = fd
 			in.fileOf[fd] = f
 			order = append(order, fd)
-			if !inv[declKey(in.p.PkgPath, fd)] {
+			if _, known := inv[declKey(in.p.PkgPath, fd)]; !known {
 				if why := in.inlinable(fd); why != "" {
 					in.rep.Refused[declKey(in.p.PkgPath, fd)] = why
 				} else {
@@ -1684,4 +1769,168 @@ func deadHelpers(ins []*pkgInliner) map[string]bool {
 		dead[declKey(in.p.PkgPath, fd)] = true
 	}
 	return dead
+}
+
+type invField struct{ name, typ string }
+
+// loadFieldInventory: "pkgpath.Type" -> fields in declaration order.
+func loadFieldInventory() map[string][]invField {
+	m := map[string][]invField{}
+	for _, l := range strings.Split(inventoryText, "\n") {
+		l = strings.TrimSpace(l)
+		if !strings.HasPrefix(l, "field:") {
+			continue
+		}
+		parts := strings.Split(strings.TrimPrefix(l, "field:"), "\t")
+		if len(parts) != 4 {
+			continue
+		}
+		m[parts[0]] = append(m[parts[0]], invField{parts[2], parts[3]})
+	}
+	return m
+}
+
+func moduleStructFields(roots []*packages.Package) []string {
+	var out []string
+	q := func(p *types.Package) string { return p.Path() }
+	for _, p := range roots {
+		if !strings.HasPrefix(p.PkgPath, libPath) || p.Types == nil {
+			continue
+		}
+		sc := p.Types.Scope()
+		for _, n := range sc.Names() {
+			tn, ok := sc.Lookup(n).(*types.TypeName)
+			if !ok {
+				continue
+			}
+			st, ok := tn.Type().Underlying().(*types.Struct)
+			if !ok {
+				continue
+			}
+			for i := 0; i < st.NumFields(); i++ {
+				out = append(out, fmt.Sprintf("field:%s.%s\t%d\t%s\t%s", p.PkgPath, n, i, st.Field(i).Name(), types.TypeString(st.Field(i).Type(), q)))
+			}
+		}
+	}
+	return out
+}
+
+// resolveFieldRenames: a struct of the inventory that still has the same number of fields with the same types in
+// the same order may have had fields renamed; such a field answers to its inventory name.
+func resolveFieldRenames(roots []*packages.Package) (map[*types.Var]string, []string) {
+	inv := loadFieldInventory()
+	out := map[*types.Var]string{}
+	var notes []string
+	q := func(p *types.Package) string { return p.Path() }
+	for _, p := range roots {
+		if !strings.HasPrefix(p.PkgPath, libPath) || p.Types == nil {
+			continue
+		}
+		sc := p.Types.Scope()
+		for _, n := range sc.Names() {
+			tn, ok := sc.Lookup(n).(*types.TypeName)
+			if !ok {
+				continue
+			}
+			st, ok := tn.Type().Underlying().(*types.Struct)
+			fs := inv[p.PkgPath+"."+n]
+			if !ok || len(fs) != st.NumFields() {
+				continue
+			}
+			same := true
+			for i, f := range fs {
+				if types.TypeString(st.Field(i).Type(), q) != f.typ {
+					same = false
+				}
+			}
+			if !same {
+				continue
+			}
+			// names present on both sides keep their meaning; only a name that is gone can be an alias
+			cur := map[string]bool{}
+			for i := 0; i < st.NumFields(); i++ {
+				cur[st.Field(i).Name()] = true
+			}
+			for i, f := range fs {
+				if st.Field(i).Name() != f.name && !cur[f.name] {
+					out[st.Field(i)] = f.name
+					notes = append(notes, fmt.Sprintf("renamed: field %s.%s.%s is analysed under its inventory name %s (same struct, position and type)", p.PkgPath, n, st.Field(i).Name(), f.name))
+				}
+			}
+		}
+	}
+	sort.Strings(notes)
+	return out, notes
+}
+
+// constAlias: inventory constant (pkgpath.name) -> its current name, when it was renamed.
+var constAlias = map[string]string{}
+
+func moduleConsts(roots []*packages.Package) []string {
+	var out []string
+	for _, p := range roots {
+		if !strings.HasPrefix(p.PkgPath, libPath) || p.Types == nil {
+			continue
+		}
+		sc := p.Types.Scope()
+		for _, n := range sc.Names() {
+			if c, ok := sc.Lookup(n).(*types.Const); ok {
+				out = append(out, fmt.Sprintf("const:%s.%s\t%s\t%s", p.PkgPath, n, c.Val().ExactString(), types.TypeString(c.Type(), func(p *types.Package) string { return p.Path() })))
+			}
+		}
+	}
+	return out
+}
+
+// resolveConstRenames: an inventory constant that is gone is matched to a new constant of the same package,
+// value and type when that match is unique in both directions.
+func resolveConstRenames(roots []*packages.Package) (map[string]string, []string) {
+	type ent struct{ name, val, typ string }
+	inv := map[string][]ent{} // pkg -> consts
+	for _, l := range strings.Split(inventoryText, "\n") {
+		l = strings.TrimSpace(l)
+		if !strings.HasPrefix(l, "const:") {
+			continue
+		}
+		parts := strings.Split(strings.TrimPrefix(l, "const:"), "\t")
+		if len(parts) != 3 {
+			continue
+		}
+		i := strings.LastIndex(parts[0], ".")
+		inv[parts[0][:i]] = append(inv[parts[0][:i]], ent{parts[0][i+1:], parts[1], parts[2]})
+	}
+	out := map[string]string{}
+	var notes []string
+	q := func(p *types.Package) string { return p.Path() }
+	for _, p := range roots {
+		if p.Types == nil || inv[p.PkgPath] == nil {
+			continue
+		}
+		sc := p.Types.Scope()
+		known := map[string]bool{}
+		for _, e := range inv[p.PkgPath] {
+			known[e.name] = true
+		}
+		missing := map[string][]string{}
+		for _, e := range inv[p.PkgPath] {
+			if _, ok := sc.Lookup(e.name).(*types.Const); !ok {
+				missing[e.val+"|"+e.typ] = append(missing[e.val+"|"+e.typ], e.name)
+			}
+		}
+		added := map[string][]string{}
+		for _, n := range sc.Names() {
+			if c, ok := sc.Lookup(n).(*types.Const); ok && !known[n] {
+				k := c.Val().ExactString() + "|" + types.TypeString(c.Type(), q)
+				added[k] = append(added[k], n)
+			}
+		}
+		for k, ms := range missing {
+			if as := added[k]; len(ms) == 1 && len(as) == 1 {
+				out[p.PkgPath+"."+ms[0]] = as[0]
+				notes = append(notes, fmt.Sprintf("renamed: constant %s.%s is analysed under its inventory name %s (same package, value and type)", p.PkgPath, as[0], ms[0]))
+			}
+		}
+	}
+	sort.Strings(notes)
+	return out, notes
 }
